@@ -522,3 +522,19 @@ func (e *lockEngine) Witness(fn *ssa.Function, ctx LockSet) string {
 	}
 	return strings.Join(parts, " -> ")
 }
+
+// ChainHas reports whether the call chain that led to (fn, ctx) passes through
+// a function satisfying pred (fn itself included).
+func (e *lockEngine) ChainHas(fn *ssa.Function, ctx LockSet, pred func(*ssa.Function) bool) bool {
+	for i := 0; i < 60 && fn != nil; i++ {
+		if pred(fn) {
+			return true
+		}
+		c := e.results[fn][ctx]
+		if c == nil || c.fromFn == nil {
+			return false
+		}
+		fn, ctx = c.fromFn, c.fromCtx
+	}
+	return false
+}
